@@ -113,16 +113,16 @@ CHECKS["C02"] = dict(
 CHECKS["C14"] = dict(
     level="exploration",
     rule=("case = PRNG monitor configuration (accept/complete timeouts 0/20s/40s resp. 0/30s, debounce, backoff, max restarts 1-4; every 12th case: monitoring disabled; "
-          "every 6th: structured 'restart requested during an attempt' scenario) x 1-4 monitored channels x per-channel connect/restart failure pattern (never, first k, "
+          "every 6th: structured 'restart requested during an attempt' scenario; every 3rd, for channels whose reconnect stalls: accepted, one error, then the channel ENDS while that restart attempt is in flight) x 1-4 monitored channels x per-channel connect/restart failure pattern (never, first k, "
           "always, alternate) and stall x PRNG script of timed events (error bursts, data, accept, finish, noise, cleaning-up/terminal snapshots) on the VIRTUAL clock "
           "(event classes live on different millisecond offsets so that nothing coincides with a timer). Oracles on the recording monitor API: no overlapping attempt "
           "intervals; attempts without data progress <= max; <= 1 close; accept/complete deadline closes exactly then unless cancelled; any other close needs an exhausted "
-          "budget; persistent failure ends in a close; silence, no subscription and 'forgotten' after a cleanup/terminal snapshot or verdict; exactly one extra attempt "
+          "budget; persistent failure ends in a close; silence, no subscription and 'forgotten' after a cleanup/terminal snapshot or verdict (a close is ordered against the ending event by its position in the call log, not by the virtual clock: a close provoked by the ending itself happens at the same instant); exactly one extra attempt "
           "for restarts requested during an attempt; disabled => no calls at all. distinct = observed (failure pattern, closes, attempts, ended, deadline kind) facts."),
     parts=[dict(test="TestC14Monitor", quick=600, thorough=50000, per_shard=60),
         dict(test="TestC14Mgr", quick=64, thorough=3200, per_shard=8)],
     floors=dict(any={"TestC14Monitor.queued_cases": 50, "TestC14Monitor.budget_closes": 50, "TestC14Monitor.deadline_cases.accept-timeout": 50,
-                     "TestC14Monitor.deadline_cases.complete-timeout": 10, "TestC14Monitor.disabled_cases": 20, "TestC14Monitor.stopped_channels": 200, "TestC14Mgr.mgr_persistent_failures": 20, "TestC14Mgr.mgr_recovered": 20, "TestC14Mgr.accept_processed_during_open": 6}),
+                     "TestC14Monitor.deadline_cases.complete-timeout": 10, "TestC14Monitor.disabled_cases": 20, "TestC14Monitor.stopped_channels": 200, "TestC14Monitor.ended_during_restart_attempt": 100, "TestC14Mgr.mgr_persistent_failures": 20, "TestC14Mgr.mgr_recovered": 20, "TestC14Mgr.accept_processed_during_open": 6}),
     assumptions=["virtual time (testing/synctest): timer expirations are exact; the monitor API double is the only observation point"],
 )
 
